@@ -51,6 +51,32 @@ def _meta_of(segno, code):
                'symbol_size_2.5_default': q.symbol_size(scale=2.5)}
 
 
+_CLONE_KEYS = ('version', 'error', 'mask', 'is_micro', 'designator', 'mode', 'symbol_size', 'default_border_size')
+
+
+def clone_deviations(q, meta):
+    """Copies of a QRCode object (copy, deepcopy, pickle round trip) are QRCode objects too: same matrix, same
+    reported metadata. Returns a list of (how, key, clone value, original value)."""
+    import copy
+    import pickle
+    out = []
+    for how, make in (('copy.copy', copy.copy), ('copy.deepcopy', copy.deepcopy),
+                      ('pickle', lambda o: pickle.loads(pickle.dumps(o))), ('pickle-2', lambda o: pickle.loads(pickle.dumps(o, 2)))):
+        try:
+            c = make(q)
+        except Exception as ex:  # noqa: BLE001
+            out.append((how, 'raised', type(ex).__name__, None))
+            continue
+        if [bytes(r) for r in c.matrix] != [bytes(r) for r in q.matrix]:
+            out.append((how, 'matrix', None, None))
+        for k in _CLONE_KEYS:
+            v = getattr(c, k)
+            v = v() if callable(v) else v
+            if v != meta[k] and not (k == 'symbol_size' and tuple(v) == tuple(meta[k])):
+                out.append((how, k, v, meta[k]))
+    return out
+
+
 def observe_encode(args, result):
     """The shared post-condition body for encoder.encode. An error inside the
     monitor must never leak into the observed program: it is recorded (and
@@ -75,6 +101,11 @@ def _observe_encode(args, result):
     except Exception as ex:  # noqa: BLE001
         rec.deviation('C02', 'metadata-raises', {'error': repr(ex)}, case=rec.case)
         meta = None
+    if meta is not None and (State.props is None or 'C02' in State.props) and rec.counters['encode_observed'] % 7 == 0:
+        rec.count('clones_compared')
+        bad = clone_deviations(q, meta)
+        if bad:
+            rec.deviation('C02', 'metadata-of-copy', {'differences': bad[:6]})
     devs, s, info = oracle.check_symbol(result.matrix, args, meta, State.props)
     for prop, kind, detail in devs:
         rec.deviation(prop, kind, detail)
@@ -120,7 +151,7 @@ def _plain_post(fn, cond):
 
 
 def contract(fn, cond):
-    if HAVE_ICONTRACT:
+    if HAVE_ICONTRACT and __debug__:      # (icontract switches itself off under python -O; the plain wrapper does not)
         return icontract.ensure(cond, error=MonitorBroken)(fn)
     return _plain_post(fn, cond)
 
